@@ -27,7 +27,7 @@ def http_tables(sc):
     return True, "Generated/HttpTables.lean differs from the committed tables:\n" + d
 
 
-HTTP_RUN = {"harness": "hhttp", "driver": "httpdrv", "fields": ["cache", "err", "st", "msgs"], "corpus": "http",
+HTTP_RUN = {"harness": "hhttp", "driver": "httpdrv", "fields": ["cache", "err", "st", "held", "msgs"], "corpus": "http",
             "quick": {"n": 1500, "shards": 16}, "thorough": {"n": 6000, "shards": 32}}
 
 C07_RUN = {"harness": "hhttp7", "driver": "httpdrv", "fields": ["render", "err", "cache", "st", "nb", "offs", "ref"], "corpus": "http7",
